@@ -309,19 +309,6 @@ theorem wf_fold (v : Bytes) : Wf (fold v) ↔ Wf v := by
 
 /-! ### parse and match -/
 
-theorem Valid.not_multiDot {v : Bytes} (h : Valid v) : multiDot v = false := by
-  match v with
-  | [] => rfl
-  | [_] => rfl
-  | a :: b :: r =>
-    by_cases ha : a = DOT
-    · by_cases hb : b = DOT
-      · subst ha; subst hb
-        have := h.2
-        simp [root, startsWithDot] at this
-      · simp [multiDot, hb]
-    · simp [multiDot, ha]
-
 /-- the state of a correctly built domain ACL: disjoint, increasing, well-formed stored values whose intervals cover exactly
 what the configured values cover -/
 def Holds (vals : List Bytes) (t : Tree Bytes) : Prop :=
